@@ -132,7 +132,7 @@ def _make_twin(harness, func, node, tmpdir):
     args = ast.unparse(node.args)
     names = [a.arg for a in node.args.args]
     text = (
-        'import sys\nsys.path.insert(0, %r)\nsys.path.insert(0, %r)\n'
+        'import sys\nfrom typing import *\nsys.path.insert(0, %r)\nsys.path.insert(0, %r)\n'
         'from engine import mark\nimport %s as _H\n'
         'def twin(%s) -> bool:\n    """\n%s\n    post: _\n    """\n'
         '    mark.REACHED = False\n    try:\n        _H.%s(%s)\n    except Exception:\n        pass\n    return not mark.REACHED\n'
@@ -228,7 +228,7 @@ def _run_ch(prop, ob, tmpdir):
     if ob.twin and res['verdict'] in ('unsat', 'unknown'):
         tw = _make_twin(ob.harness, ob.func, node, tmpdir)
         tout, tst = _crosshair(tw, min(ob.timeout, 60))
-        res['reach'] = 'sat' if ': error: false when calling twin(' in tout else 'not shown'
+        res['reach'] = 'sat' if ': error: false when calling twin(' in tout else 'not shown (%s)' % ' | '.join(tst.get('stderr_tail', []))[-200:]
         res['wall'] += tst['wall']
     elif res['verdict'] == 'sat':
         res['reach'] = 'sat'
